@@ -7,6 +7,7 @@ import (
 
 	"github.com/dadrus/heimdall/internal/cache"
 	"github.com/dadrus/heimdall/internal/config"
+	"github.com/dadrus/heimdall/internal/handler/requestcontext"
 	"github.com/dadrus/heimdall/internal/rules/rule"
 )
 
@@ -22,4 +23,9 @@ func VerifC12NewContext(rw http.ResponseWriter, req *http.Request) interface {
 	Finalize(backend rule.Backend) error
 } {
 	return newContextFactory(http.StatusOK).Create(rw, req)
+}
+
+// VerifC12ContextFactory is the request context factory of the decision service, as handed to service.NewHandler.
+func VerifC12ContextFactory() requestcontext.ContextFactory {
+	return newContextFactory(http.StatusOK)
 }
